@@ -367,3 +367,32 @@ def args_rules(run, R="ARGS"):
             run.check(ok, R, key, f.loc(t["span"]), "%s reads argument %s after the argument count was checked" % (root, idx if idx is not None else "i"),
                       "%s indexes `args[%s]` without a dominating check of the number of arguments (ensure_arg_number / args.len() test): a call with too few arguments panics instead of reporting `function expected N arguments`" % (root, idx if idx is not None else "i"))
     run.floor(R, "argument index sites", n_sites, 20)
+
+
+def nested_arg_text(run, R="ASM"):
+    """matcher: the argument recorded for a sub-rule parameter carries the source text and span read by the walker of the very
+    candidate it records (asm blocks substitute that text): kind = Nested(cand.0), span = get_span(cand.1, ..), excerpt =
+    get_excerpt(cand.1, ..) with one and the same `cand`"""
+    f = run.anchor(R, "asm::matcher::match_with_nested_ruledef")
+    if f is None:
+        return
+    n, bad = 0, []
+    for bi, si, st in f.stmts():
+        if st["k"] != "assign" or st["rv"]["k"] != "agg" or not str(st["rv"].get("adt", "")).endswith("matcher::InstructionArgument"):
+            continue
+        flds = st["rv"].get("fields") or []
+        if not {"kind", "span", "excerpt"} <= set(flds):
+            continue
+        vals = {k: deep(f, st["rv"]["ops"][flds.index(k)], 9) for k in ("kind", "span", "excerpt")}
+        m = re.fullmatch(r"Nested\{(.*)\.0\}", vals["kind"])
+        if not m:
+            continue
+        n += 1
+        cand = m.group(1)
+        if not vals["span"].startswith("Walker::get_span(%s.1, " % cand):
+            bad.append("the span is `%s`" % vals["span"][:100])
+        if ("Walker::get_excerpt(%s.1, " % cand) not in vals["excerpt"]:
+            bad.append("the text is `%s`" % vals["excerpt"][:100])
+    run.check(n >= 1 and not bad, R, R + "|nested-arg|own-text", f.loc(),
+              "a sub-rule argument is recorded with the span and text its own candidate's walker consumed (%d site(s))" % n,
+              "match_with_nested_ruledef records a sub-rule candidate with text that is not what that candidate consumed (%s): an asm block substituting the argument would re-assemble another alternative's text" % ("; ".join(bad) or "no nested argument found"))
